@@ -150,10 +150,24 @@ def run(check):
         fcntl.flock(lock, fcntl.LOCK_EX)
         p = subprocess.run(["cargo", "build", "--offline", "--target-dir", os.path.join(BUILD, "target-c19")], cwd=sc.path("crate"),
                            env=env, stdout=subprocess.PIPE, stderr=subprocess.STDOUT, text=True)
-        lock.close()
         if p.returncode != 0 or not os.path.exists(dump):
-            # the probe crate itself must compile: every item is swallowed by `attrdump::dump`
-            raise InfraError("C19 probe crate does not build:\n" + p.stdout[-3000:])
+            # every item is swallowed by `attrdump::dump`, so the crate compiles unless the #[typeshare] macro itself emits an error
+            # (or panics).  Cross-check: the same crate without the #[typeshare] attributes must build; then this is a violation
+            plain = re.sub(r"#\[typeshare_annotation::typeshare(\([^\n]*?\))?\] #\[attrdump", "#[attrdump", "#![allow(unused)]\n" + "".join(src))
+            sc.write("crate/src/lib.rs", plain)
+            p2 = subprocess.run(["cargo", "build", "--offline", "--target-dir", os.path.join(BUILD, "target-c19")], cwd=sc.path("crate"),
+                                env=env, stdout=subprocess.PIPE, stderr=subprocess.STDOUT, text=True)
+            lock.close()
+            if p2.returncode != 0:
+                raise InfraError("C19 probe crate does not build even without #[typeshare]:\n" + p2.stdout[-3000:])
+            errs = [l for l in p.stdout.split("\n") if l.startswith("error")][:4]
+            where = re.findall(r"--> src/lib.rs:(\d+):", p.stdout)
+            bad_src = src[int(where[0]) - 2] if where and 0 <= int(where[0]) - 2 < len(src) else None
+            check.saw(("probe-build", "failed"), nontrivial=True)
+            check.violation("the program with #[typeshare] does not compile although the same items without it do: %s" % "; ".join(errs),
+                            case={"source": bad_src or "".join(src)[:4000]}, impl={"rustc": p.stdout[-3000:]}, failing_input=True)
+            return
+        lock.close()
         got = {}
         for line in open(dump, encoding="utf-8"):
             k, _, v = line.rstrip("\n").partition("\t")
